@@ -324,8 +324,8 @@ fn cmd_run(args: &[String]) {
     out.push_str("  {");
     out.push_str(&format!("\"id\": {}, \"props\": [{}], \"about\": {}, \"bounds\": {}, ", json_str(h.id), h.props.iter().map(|p| json_str(p)).collect::<Vec<_>>().join(","), json_str(h.about), json_str(&(h.bounds)(thorough))));
     out.push_str(&format!(
-      "\"paths\": {}, \"pruned\": {}, \"symbolic_paths\": {}, \"branch_queries\": {}, \"check_queries\": {}, \"sat\": {}, \"unsat\": {}, \"solver_s\": {:.3}, \"forks_sym\": {}, \"forks_choice\": {}, \"max_depth\": {}, \"checks_discharged\": {}, \"budget_hit\": {}, \"cpu_s\": {:.3}, ",
-      s.paths, s.pruned, s.symbolic_paths, s.branch_queries, s.check_queries, s.sat, s.unsat, s.solver_s, s.forks_sym, s.forks_choice, s.max_depth, s.checks_discharged, s.budget_hit, st.wall
+      "\"paths\": {}, \"pruned\": {}, \"symbolic_paths\": {}, \"nontrivial_paths\": {}, \"branch_queries\": {}, \"check_queries\": {}, \"sat\": {}, \"unsat\": {}, \"solver_s\": {:.3}, \"forks_sym\": {}, \"forks_choice\": {}, \"max_depth\": {}, \"checks_discharged\": {}, \"budget_hit\": {}, \"cpu_s\": {:.3}, ",
+      s.paths, s.pruned, s.symbolic_paths, s.nontrivial_paths, s.branch_queries, s.check_queries, s.sat, s.unsat, s.solver_s, s.forks_sym, s.forks_choice, s.max_depth, s.checks_discharged, s.budget_hit, st.wall
     ));
     out.push_str(&format!("\"inconclusive\": [{}], ", s.inconclusive.iter().map(|p| json_str(p)).collect::<Vec<_>>().join(",")));
     out.push_str(&format!("\"covers\": {{{}}}, ", s.covers.iter().map(|(k, v)| format!("{}: {}", json_str(k), v)).collect::<Vec<_>>().join(",")));
